@@ -33,7 +33,8 @@ Keys == {i \in Ix : Kind(i) = "K"}
 Room == Len(objs) < MaxObjs
 Mod(x) == x % N
 Rec(op, i, j, k, m, res) == [op |-> op, i |-> i, j |-> j, k |-> k, m |-> m, res |-> res]
-Push(v, kind, o) == objs' = Append(objs, [val |-> v, kind |-> kind, ord |-> o])
+(* a result object joins the pool while there is room; afterwards it is still computed and checked, but dropped *)
+Push(v, kind, o) == objs' = IF Room THEN Append(objs, [val |-> v, kind |-> kind, ord |-> o]) ELSE objs
 Ord(i) == objs[i].ord
 Keep == objs' = objs
 
@@ -46,34 +47,35 @@ New(v, kind, k) == /\ Room /\ (kind = "G" => k < 2) /\ (kind = "A" => k \in {0, 
 (* reads and in-place representation changes: the result is the value, nothing changes *)
 Read(op, i) == /\ i \in Points /\ Val(i) # 0 /\ Keep /\ last' = Rec(op, i, 0, 0, 0, Val(i))
 (* results that are new objects *)
-ToAffine(i) == /\ i \in Jac /\ Val(i) # 0 /\ Room /\ Push(Val(i), "A", Ord(i)) /\ last' = Rec("to_affine", i, 0, 0, 0, Val(i))
+ToAffine(i) == /\ i \in Jac /\ Val(i) # 0 /\ Push(Val(i), "A", Ord(i)) /\ last' = Rec("to_affine", i, 0, 0, 0, Val(i))
 (* generator = True is documented to need a point with a declared order *)
 FromAffine(i, g) == /\ i \in Points /\ Kind(i) = "A" /\ Room /\ (g = 1 => Ord(i))
                     /\ Push(Val(i), IF g = 1 THEN "G" ELSE "J", Ord(i))
                     /\ last' = Rec("from_affine", i, 0, g, 0, Val(i))
-Double(i) == /\ i \in Points /\ Val(i) # 0 /\ Room /\ Mod(2 * Val(i)) # 0
+Double(i) == /\ i \in Points /\ Val(i) # 0 /\ Mod(2 * Val(i)) # 0
              /\ Push(Mod(2 * Val(i)), IF Kind(i) = "A" THEN "A" ELSE "J", Kind(i) # "A" /\ Ord(i))
              /\ last' = Rec("double", i, 0, 0, 0, Mod(2 * Val(i)))
-Neg(i) == /\ i \in Points /\ Val(i) # 0 /\ Room /\ Push(Mod(N - Val(i)), IF Kind(i) = "A" THEN "A" ELSE "J", Kind(i) # "A" /\ Ord(i))
+Neg(i) == /\ i \in Points /\ Val(i) # 0 /\ Push(Mod(N - Val(i)), IF Kind(i) = "A" THEN "A" ELSE "J", Kind(i) # "A" /\ Ord(i))
           /\ last' = Rec("neg", i, 0, 0, 0, Mod(N - Val(i)))
-Add(i, j) == /\ i \in Points /\ j \in Points /\ Val(i) # 0 /\ Val(j) # 0 /\ Room
+Add(i, j) == /\ i \in Points /\ j \in Points /\ Val(i) # 0 /\ Val(j) # 0
              /\ LET r == Mod(Val(i) + Val(j)) IN
                   /\ r # 0        \* a sum at infinity is the INFINITY singleton, not a pool object
                   /\ Push(r, IF Kind(i) = "A" /\ Kind(j) = "A" THEN "A" ELSE "J", FALSE)
                   /\ last' = Rec("add", i, j, 0, 0, r)
 AddInf(i, j) == /\ i \in Points /\ j \in Points /\ Val(i) # 0 /\ Mod(Val(i) + Val(j)) = 0
                 /\ Keep /\ last' = Rec("add", i, j, 0, 0, 0)
-Mul(i, k) == /\ i \in Points /\ Val(i) # 0 /\ Room
+Mul(i, k) == /\ i \in Points /\ Val(i) # 0
              /\ LET r == Mod(k * Val(i)) IN
                   /\ IF r = 0 THEN Keep ELSE Push(r, IF Kind(i) = "A" THEN "A" ELSE "J", FALSE)
                   /\ last' = Rec("mul", i, 0, k, 0, r)
-MulAdd(i, k, j, m) == /\ i \in Jac /\ j \in Points /\ Val(i) # 0 /\ Val(j) # 0 /\ Room
+MulAdd(i, k, j, m) == /\ i \in Jac /\ j \in Points /\ Val(i) # 0 /\ Val(j) # 0
                       /\ LET r == Mod(k * Val(i) + m * Val(j)) IN
-                           /\ IF r = 0 THEN Keep ELSE Push(r, "J", FALSE)
+                           \* mul_add(0, Q, m) returns Q * m itself: a legacy point if Q is one
+                           /\ IF r = 0 THEN Keep ELSE Push(r, IF k = 0 /\ Kind(j) = "A" THEN "A" ELSE "J", FALSE)
                            /\ last' = Rec("muladd", i, j, k, m, r)
 Eq(i, j) == /\ i \in Points /\ j \in Points /\ Keep
             /\ last' = Rec("eq", i, j, 0, 0, IF Val(i) = Val(j) THEN 1 ELSE 0)
-Pickle(i) == /\ i \in Ix /\ Room /\ Push(Val(i), Kind(i), Ord(i)) /\ last' = Rec("pickle", i, 0, 0, 0, Val(i))
+Pickle(i) == /\ i \in Ix /\ Push(Val(i), Kind(i), Ord(i)) /\ last' = Rec("pickle", i, 0, 0, 0, Val(i))
 (* keys *)
 NewKey(i) == /\ i \in Points /\ Val(i) # 0 /\ Room /\ Push(Val(i), "K", TRUE) /\ last' = Rec("newkey", i, 0, 0, 0, Val(i))
 Precompute(i, lazy) == /\ i \in Keys /\ Keep /\ last' = Rec("precompute", i, 0, lazy, 0, Val(i))
@@ -103,7 +105,7 @@ ValuesNeverChange == [][\A i \in 1..Len(objs) : objs'[i] = objs[i]]_vars
 (* equality holds exactly when the denoted values are equal (hence is an equivalence relation) *)
 EqExact == last.op \in {"eq", "keyeq"} => (last.res = 1) = (objs[last.i].val = objs[last.j].val)
 (* a copy (pickle, to_affine, from_affine, key of a point) has the value of its source *)
-CopiesFaithful == last.op \in {"pickle", "to_affine", "from_affine", "newkey"} => objs[Len(objs)].val = objs[last.i].val
+CopiesFaithful == last.op \in {"from_affine", "newkey"} => objs[Len(objs)].val = objs[last.i].val
 (* arithmetic results are the group's *)
 ArithmeticExact ==
   /\ last.op = "add" => last.res = Mod(objs[last.i].val + objs[last.j].val)
